@@ -750,44 +750,45 @@ theorem iterator_remove_tie (L : Lay) (hL : L.WF) (mem : Mem) (h : Heap) (hR : R
 condition, body, increment; a `fuel` argument).  The unfolding lemmas below are by computation; the tie is by induction on the fuel,
 using `iterator_next_tie` for the step — so it holds for every list length, with no unrolling bound. -/
 
-theorem loop1_exit (node iter : BitVec 64) (fuel : Nat) (d : Bool) (r : BitVec 8) (mem : Mem) :
-    list_contains.loop1 node iter (fuel + 1) d r mem 0#64 = ⟨false, r, mem, 0#64, false⟩ := by
+theorem loop1_exit (node iter : BitVec 64) (fuel : Nat) (d : Bool) (r : BitVec 8) (ub : Bool) (mem : Mem) :
+    list_contains.loop1 node iter (fuel + 1) d r ub mem 0#64 = ⟨false, r, ub, mem, 0#64, false⟩ := by
   simp [list_contains.loop1, list_contains.loop1.step]
 
-theorem loop1_found (node iter : BitVec 64) (fuel : Nat) (d : Bool) (r : BitVec 8) (mem : Mem) (hn : node ≠ 0#64) :
-    list_contains.loop1 node iter (fuel + 1) d r mem node = ⟨true, 1#8, mem, node, false⟩ := by
+theorem loop1_found (node iter : BitVec 64) (fuel : Nat) (d : Bool) (r : BitVec 8) (ub : Bool) (mem : Mem) (hn : node ≠ 0#64) :
+    list_contains.loop1 node iter (fuel + 1) d r ub mem node = ⟨true, 1#8, ub, mem, node, false⟩ := by
   simp [list_contains.loop1, list_contains.loop1.step, hn]
 
-theorem loop1_next (node iter : BitVec 64) (fuel : Nat) (d : Bool) (r : BitVec 8) (mem : Mem) (curr : BitVec 64)
+theorem loop1_next (node iter : BitVec 64) (fuel : Nat) (d : Bool) (r : BitVec 8) (ub : Bool) (mem : Mem) (curr : BitVec 64)
     (h0 : curr ≠ 0#64) (hn : curr ≠ node) :
-    list_contains.loop1 node iter (fuel + 1) d r mem curr =
-      list_contains.loop1 node iter fuel false r (list_iterator_next iter mem).mem (list_iterator_next iter mem).ret := by
+    list_contains.loop1 node iter (fuel + 1) d r ub mem curr =
+      list_contains.loop1 node iter fuel false r ub (list_iterator_next iter mem).mem (list_iterator_next iter mem).ret := by
   simp [list_contains.loop1, list_contains.loop1.step, list_iterator_next, h0, hn]
 
 /-- the loop of `list_contains`, any number of iterations: whenever the model's loop finishes within the fuel, so does the generated
     one, with the model's answer, the model's iterator left in the iterator object, and the heap untouched -/
 theorem contains_loop_tie (L : Lay) (hL : L.WF) (h : Heap) (hC : Closed L h) (ia : BitVec 64) (hF : Foreign L ia)
     (nd : Node) (hnd : L.okN nd) (r0 : BitVec 8) :
-    ∀ (fuel : Nat) (mem : Mem) (it : Iter) (cur : Option Node) (d : Bool), Rep L mem h → IterAt L mem ia it → okLink L it.prevnext →
+    ∀ (fuel : Nat) (mem : Mem) (it : Iter) (cur : Option Node) (d ub : Bool), Rep L mem h → IterAt L mem ia it → okLink L it.prevnext →
       load h it.prevnext = cur → ∀ it' b, containsLoop h nd fuel it cur = .ok (it', b) →
-      (list_contains.loop1 (L.A (.next nd)) ia fuel d r0 mem (encN L cur)).exh = false ∧
-      (list_contains.loop1 (L.A (.next nd)) ia fuel d r0 mem (encN L cur)).done = b ∧
-      (list_contains.loop1 (L.A (.next nd)) ia fuel d r0 mem (encN L cur)).ret = (if b then 1#8 else r0) ∧
-      Rep L (list_contains.loop1 (L.A (.next nd)) ia fuel d r0 mem (encN L cur)).mem h ∧
-      IterAt L (list_contains.loop1 (L.A (.next nd)) ia fuel d r0 mem (encN L cur)).mem ia it' ∧
+      (list_contains.loop1 (L.A (.next nd)) ia fuel d r0 ub mem (encN L cur)).exh = false ∧
+      (list_contains.loop1 (L.A (.next nd)) ia fuel d r0 ub mem (encN L cur)).done = b ∧
+      (list_contains.loop1 (L.A (.next nd)) ia fuel d r0 ub mem (encN L cur)).ret = (if b then 1#8 else r0) ∧
+      Rep L (list_contains.loop1 (L.A (.next nd)) ia fuel d r0 ub mem (encN L cur)).mem h ∧
+      IterAt L (list_contains.loop1 (L.A (.next nd)) ia fuel d r0 ub mem (encN L cur)).mem ia it' ∧
+      (list_contains.loop1 (L.A (.next nd)) ia fuel d r0 ub mem (encN L cur)).ub = ub ∧
       okLink L it'.prevnext ∧ (b = true → load h it'.prevnext = some nd) ∧ it'.list = it.list := by
   intro fuel
   induction fuel with
-  | zero => intro mem it cur d _ _ _ _ it' b e; simp [containsLoop] at e
+  | zero => intro mem it cur d ub _ _ _ _ it' b e; simp [containsLoop] at e
   | succ fuel ih =>
-    intro mem it cur d hR hI hk hld it' b e
+    intro mem it cur d ub hR hI hk hld it' b e
     cases cur with
     | none =>
       simp only [containsLoop, Except.ok.injEq, Prod.mk.injEq] at e
       obtain ⟨e1, e2⟩ := e
       subst e1 e2
       simp only [encN, loop1_exit]
-      refine ⟨?_, ?_, ?_, hR, hI, hk, ?_, trivial⟩ <;> simp
+      refine ⟨?_, ?_, ?_, hR, hI, ?_, hk, ?_, trivial⟩ <;> simp
     | some c =>
       have hc : L.okN c := load_ok L h hC _ hk c hld
       simp only [containsLoop] at e
@@ -796,8 +797,8 @@ theorem contains_loop_tie (L : Lay) (hL : L.WF) (h : Heap) (hC : Closed L h) (ia
         simp only [if_true, Except.ok.injEq, Prod.mk.injEq] at e
         obtain ⟨e1, e2⟩ := e
         subst e1 e2
-        simp only [encN, loop1_found _ _ _ _ _ _ (A_ne0 L hL (.next c) hc)]
-        refine ⟨?_, ?_, ?_, hR, hI, hk, fun _ => hld, trivial⟩ <;> simp
+        simp only [encN, loop1_found _ _ _ _ _ _ _ (A_ne0 L hL (.next c) hc)]
+        refine ⟨?_, ?_, ?_, hR, hI, ?_, hk, fun _ => hld, trivial⟩ <;> simp
       · rw [if_neg hcn] at e
         have hne : L.A (.next c) ≠ L.A (.next nd) := by
           rw [Ne, A_inj L hL _ _ (show L.ok (.next c) from hc) (show L.ok (.next nd) from hnd)]
@@ -805,17 +806,17 @@ theorem contains_loop_tie (L : Lay) (hL : L.WF) (h : Heap) (hC : Closed L h) (ia
         obtain ⟨_, _, t3, t4, t5⟩ := iterator_next_tie L hL mem h hR hC ia hF it hI hk
         have hin : iteratorNext h it = ({ it with prevnext := .nextOf c }, h.next c) := by unfold iteratorNext; rw [hld]
         simp only [encN]
-        rw [loop1_next _ _ _ _ _ _ _ (A_ne0 L hL (.next c) hc) hne, t3]
+        rw [loop1_next _ _ _ _ _ _ _ _ (A_ne0 L hL (.next c) hc) hne, t3]
         rw [hin] at t5 e
         rw [hin]
-        exact ih _ _ _ false t4 t5 hc rfl it' b e
+        exact ih _ _ _ false ub t4 t5 hc rfl it' b e
 
 /-- `list_contains(list, node, iter)` with a caller's iterator object: the call is `list_iterate` followed by the loop -/
 theorem contains_unfold (fuel : Nat) (list node iter my : BitVec 64) (mem : Mem) (hi : iter ≠ 0#64) :
     list_contains fuel list node iter my mem =
       (let r := list_iterate list iter mem
-       let s := list_contains.loop1 node iter fuel false 0#8 r.mem r.ret
-       { ret := if s.done then s.ret else 0#8, mem := s.mem, ub := false, exh := (!s.done && s.exh) }) := by
+       let s := list_contains.loop1 node iter fuel false 0#8 false r.mem r.ret
+       { ret := if s.done then s.ret else 0#8, mem := s.mem, ub := s.ub, exh := (!s.done && s.exh) }) := by
   have hi' : ¬ (0#64 = iter) := fun e => hi e.symm
   simp [list_contains, list_iterate, hi']
   all_goals first | rfl | (split <;> rfl)
@@ -832,20 +833,20 @@ theorem contains_tie (L : Lay) (hL : L.WF) (mem : Mem) (h : Heap) (hR : Rep L me
     okLink L it'.prevnext ∧ (b = true → load h it'.prevnext = some nd) ∧ it'.list = l := by
   obtain ⟨_, _, i3, i4, i5⟩ := iterate_tie L mem h hR l hl ia hF
   unfold contains at hok
-  have key := contains_loop_tie L hL h hC ia hF nd hnd 0#8 fuel _ (iterate h l).1 (iterate h l).2 false i4 i5
+  have key := contains_loop_tie L hL h hC ia hF nd hnd 0#8 fuel _ (iterate h l).1 (iterate h l).2 false false i4 i5
     (show L.okL l from hl) rfl it' b hok
   rw [contains_unfold fuel _ _ ia my mem hi]
   simp only
   rw [i3]
-  obtain ⟨k1, k2, k3, k4, k5, k6, k7, k8⟩ := key
-  refine ⟨by simp, by rw [k1]; simp, ?_, k4, k5, k6, k7, k8⟩
+  obtain ⟨k1, k2, k3, k4, k5, kub, k6, k7, k8⟩ := key
+  refine ⟨kub, by rw [k1]; simp, ?_, k4, k5, k6, k7, k8⟩
   rw [k2, k3]
   cases b <;> rfl
 
 /-- `list_remove(list, node)`: `list_contains` with the local iterator (the translator reuses the loop definition), then
     `list_iterator_remove` when found -/
 theorem remove_unfold (fuel : Nat) (list node ia my : BitVec 64) (mem : Mem) (hi : ia ≠ 0#64) :
-    (list_remove fuel list node ia my mem).ub = false ∧
+    (list_remove fuel list node ia my mem).ub = (list_contains fuel list node ia my mem).ub ∧
     (list_remove fuel list node ia my mem).exh = (list_contains fuel list node ia my mem).exh ∧
     (list_remove fuel list node ia my mem).ret = (if (list_contains fuel list node ia my mem).ret ≠ 0#8 then 1#8 else 0#8) ∧
     (list_remove fuel list node ia my mem).mem =
@@ -854,7 +855,9 @@ theorem remove_unfold (fuel : Nat) (list node ia my : BitVec 64) (mem : Mem) (hi
   have hi' : ¬ (0#64 = ia) := fun e => hi e.symm
   unfold list_remove list_contains list_iterator_remove
   simp only [hi', if_false, decide_false, Bool.false_eq_true]
-  refine ⟨trivial, trivial, ?_, ?_⟩
+  refine ⟨?_, ?_, ?_, ?_⟩
+  · first | trivial | rfl
+  · first | trivial | rfl
   · split <;> simp_all
   · split <;> simp_all
 
@@ -880,7 +883,7 @@ theorem remove_tie (L : Lay) (hL : L.WF) (mem : Mem) (h : Heap) (hR : Rep L mem 
       obtain ⟨e1, e2⟩ := hok
       subst e1 e2
       have hz : (list_contains fuel (L.A (.head l)) (L.A (.next nd)) ia my mem).ret = 0#8 := by rw [c3]; rfl
-      refine ⟨u1, by rw [u2, c2], ?_, ?_, hC⟩
+      refine ⟨by rw [u1]; exact c1, by rw [u2, c2], ?_, ?_, hC⟩
       · rw [u3, hz]; rfl
       · rw [u4, hz]; simpa using c4
     | true =>
@@ -905,21 +908,21 @@ theorem remove_tie (L : Lay) (hL : L.WF) (mem : Mem) (h : Heap) (hR : Rep L mem 
         have hli : L.okL it'.list := by rw [c8]; exact hl
         obtain ⟨_, _, _, r4, r5, _⟩ := iterator_remove_tie L hL _ h c4 hC ia hF it' c5 c6 hli nd hld hself r hr
         have hnz : (list_contains fuel (L.A (.head l)) (L.A (.next nd)) ia my mem).ret ≠ 0#8 := by rw [c3]; decide
-        refine ⟨u1, by rw [u2, c2], ?_, ?_, r5⟩
+        refine ⟨by rw [u1]; exact c1, by rw [u2, c2], ?_, ?_, r5⟩
         · rw [u3, if_pos hnz]; rfl
         · rw [u4, if_pos hnz]; exact r4
 
 /-! ### `list_insert_sorted`: the comparator is a pure function (`nodecmp_fn`), the scan is a recursive definition -/
 
 theorem sorted_stop (node : BitVec 64) (f : BitVec 64 → BitVec 64 → BitVec 32) (iter : BitVec 64) (fuel : Nat) (mem : Mem)
-    (curr : BitVec 64) (hc : BitVec.sle 0#32 (f node curr) = false) :
-    list_insert_sorted.loop1 node f iter (fuel + 1) mem curr = ⟨mem, curr, false⟩ := by
+    (curr : BitVec 64) (ub : Bool) (hc : BitVec.sle 0#32 (f node curr) = false) :
+    list_insert_sorted.loop1 node f iter (fuel + 1) ub mem curr = ⟨ub, mem, curr, false⟩ := by
   simp [list_insert_sorted.loop1, list_insert_sorted.loop1.step, hc]
 
 theorem sorted_next (node : BitVec 64) (f : BitVec 64 → BitVec 64 → BitVec 32) (iter : BitVec 64) (fuel : Nat) (mem : Mem)
-    (curr : BitVec 64) (hc : BitVec.sle 0#32 (f node curr) = true) :
-    list_insert_sorted.loop1 node f iter (fuel + 1) mem curr =
-      list_insert_sorted.loop1 node f iter fuel (list_iterator_next iter mem).mem (list_iterator_next iter mem).ret := by
+    (curr : BitVec 64) (ub : Bool) (hc : BitVec.sle 0#32 (f node curr) = true) :
+    list_insert_sorted.loop1 node f iter (fuel + 1) ub mem curr =
+      list_insert_sorted.loop1 node f iter fuel ub (list_iterator_next iter mem).mem (list_iterator_next iter mem).ret := by
   simp [list_insert_sorted.loop1, list_insert_sorted.loop1.step, list_iterator_next, hc]
 
 /-- the comparator the C code calls agrees in sign with the model's -/
@@ -929,17 +932,18 @@ def CmpAgrees (L : Lay) (f : BitVec 64 → BitVec 64 → BitVec 32) (cmp : Node 
 /-- the scan of `list_insert_sorted`, any number of iterations -/
 theorem sorted_loop_tie (L : Lay) (hL : L.WF) (h : Heap) (hC : Closed L h) (ia : BitVec 64) (hF : Foreign L ia)
     (n : Node) (hn : L.okN n) (f : BitVec 64 → BitVec 64 → BitVec 32) (cmp : Node → Node → Int) (hcmp : CmpAgrees L f cmp) :
-    ∀ (fuel : Nat) (mem : Mem) (it : Iter) (cur : Option Node), Rep L mem h → IterAt L mem ia it → okLink L it.prevnext →
+    ∀ (fuel : Nat) (mem : Mem) (it : Iter) (cur : Option Node) (ub : Bool), Rep L mem h → IterAt L mem ia it → okLink L it.prevnext →
       load h it.prevnext = cur → ∀ it', sortedLoop h cmp n fuel it cur = .ok it' →
-      (list_insert_sorted.loop1 (L.A (.next n)) f ia fuel mem (encN L cur)).exh = false ∧
-      Rep L (list_insert_sorted.loop1 (L.A (.next n)) f ia fuel mem (encN L cur)).mem h ∧
-      IterAt L (list_insert_sorted.loop1 (L.A (.next n)) f ia fuel mem (encN L cur)).mem ia it' ∧
+      (list_insert_sorted.loop1 (L.A (.next n)) f ia fuel ub mem (encN L cur)).exh = false ∧
+      (list_insert_sorted.loop1 (L.A (.next n)) f ia fuel ub mem (encN L cur)).ub = ub ∧
+      Rep L (list_insert_sorted.loop1 (L.A (.next n)) f ia fuel ub mem (encN L cur)).mem h ∧
+      IterAt L (list_insert_sorted.loop1 (L.A (.next n)) f ia fuel ub mem (encN L cur)).mem ia it' ∧
       okLink L it'.prevnext ∧ it'.list = it.list ∧ ∃ c, load h it'.prevnext = some c := by
   intro fuel
   induction fuel with
-  | zero => intro mem it cur _ _ _ _ it' e; simp [sortedLoop] at e
+  | zero => intro mem it cur ub _ _ _ _ it' e; simp [sortedLoop] at e
   | succ fuel ih =>
-    intro mem it cur hR hI hk hld it' e
+    intro mem it cur ub hR hI hk hld it' e
     cases cur with
     | none => simp [sortedLoop] at e
     | some c =>
@@ -951,10 +955,10 @@ theorem sorted_loop_tie (L : Lay) (hL : L.WF) (h : Heap) (hC : Closed L h) (ia :
         obtain ⟨_, _, t3, t4, t5⟩ := iterator_next_tie L hL mem h hR hC ia hF it hI hk
         have hin : iteratorNext h it = ({ it with prevnext := .nextOf c }, h.next c) := by unfold iteratorNext; rw [hld]
         simp only [encN]
-        rw [sorted_next _ _ _ _ _ _ hs, t3]
+        rw [sorted_next _ _ _ _ _ _ _ hs, t3]
         rw [hin] at t5 e
         rw [hin]
-        exact ih _ _ _ t4 t5 hc rfl it' e
+        exact ih _ _ _ ub t4 t5 hc rfl it' e
       · rw [if_neg hge] at e
         simp only [Except.ok.injEq] at e
         subst e
@@ -962,8 +966,8 @@ theorem sorted_loop_tie (L : Lay) (hL : L.WF) (h : Heap) (hC : Closed L h) (ia :
           cases hb : BitVec.sle 0#32 (f (L.A (.next n)) (L.A (.next c))) with
           | false => rfl
           | true => exact absurd ((hcmp n c hn hc).1 hb) hge
-        simp only [encN, sorted_stop _ _ _ _ _ _ hs]
-        exact ⟨trivial, hR, hI, hk, trivial, c, hld⟩
+        simp only [encN, sorted_stop _ _ _ _ _ _ _ hs]
+        exact ⟨trivial, trivial, hR, hI, hk, trivial, c, hld⟩
 
 theorem sorted_unfold_empty (fuel : Nat) (f : BitVec 64 → BitVec 64 → BitVec 32) (list node fp ia : BitVec 64) (mem : Mem)
     (h0 : Mem.load64 mem list = 0#64) :
@@ -979,12 +983,13 @@ theorem sorted_unfold_tail (fuel : Nat) (f : BitVec 64 → BitVec 64 → BitVec 
 
 theorem sorted_unfold_scan (fuel : Nat) (f : BitVec 64 → BitVec 64 → BitVec 32) (list node fp ia : BitVec 64) (mem : Mem)
     (h0 : Mem.load64 mem list ≠ 0#64) (hc : BitVec.sle 0#32 (f node (Mem.load64 mem (list + 8#64))) = false) :
-    (list_insert_sorted fuel f list node fp ia mem).ub = false ∧
+    (list_insert_sorted fuel f list node fp ia mem).ub =
+      (list_insert_sorted.loop1 node f ia fuel false (list_iterate list ia mem).mem (list_iterate list ia mem).ret).ub ∧
     (list_insert_sorted fuel f list node fp ia mem).exh =
-      (list_insert_sorted.loop1 node f ia fuel (list_iterate list ia mem).mem (list_iterate list ia mem).ret).exh ∧
+      (list_insert_sorted.loop1 node f ia fuel false (list_iterate list ia mem).mem (list_iterate list ia mem).ret).exh ∧
     (list_insert_sorted fuel f list node fp ia mem).mem =
       (list_iterator_insert ia node
-        (list_insert_sorted.loop1 node f ia fuel (list_iterate list ia mem).mem (list_iterate list ia mem).ret).mem).mem := by
+        (list_insert_sorted.loop1 node f ia fuel false (list_iterate list ia mem).mem (list_iterate list ia mem).ret).mem).mem := by
   simp [list_insert_sorted, list_iterate, list_iterator_insert, h0, hc]
 
 /-- **tie T, `list_insert_sorted`** (any list length; pure comparator agreeing in sign with the model's): the two fast paths are
@@ -1055,9 +1060,9 @@ theorem sorted_tie (L : Lay) (hL : L.WF) (mem : Mem) (h : Heap) (hR : Rep L mem 
           simp only [Except.ok.injEq] at hok
           subst hok
           obtain ⟨_, _, i3, i4, i5⟩ := iterate_tie L mem h hR l hl ia hF
-          obtain ⟨k1, k2, k3, k4, k5, c, k6⟩ := sorted_loop_tie L hL h hC ia hF n hn f cmp hcmp fuel _ (iterate h l).1 (iterate h l).2
+          obtain ⟨k1, kub, k2, k3, k4, k5, c, k6⟩ := sorted_loop_tie L hL h hC ia hF n hn f cmp hcmp fuel _ (iterate h l).1 (iterate h l).2 false
             i4 i5 (show L.okL l from hl) rfl it' hsl
-          rw [← i3] at k1 k2 k3
+          rw [← i3] at k1 k2 k3 kub
           have hself : cellOf it'.prevnext ≠ .next n := by
             intro e
             cases hk : it'.prevnext with
@@ -1070,6 +1075,6 @@ theorem sorted_tie (L : Lay) (hL : L.WF) (mem : Mem) (h : Heap) (hR : Rep L mem 
               rw [hnone] at k6; cases k6
           have hli : L.okL it'.list := by rw [k5]; exact hl
           obtain ⟨_, _, r3, r4, _⟩ := iterator_insert_tie L hL _ h k2 hC ia hF it' k3 k4 hli n hn hnone hself
-          exact ⟨u1, by rw [u2]; exact k1, by rw [u3]; exact r3, r4⟩
+          exact ⟨by rw [u1]; exact kub, by rw [u2]; exact k1, by rw [u3]; exact r3, r4⟩
 
 end Librfn.C09.Tie
